@@ -26,6 +26,8 @@ void *ntt_new(uint64_t maxDomainSize, uint32_t nThreads, int extension);
 void ntt_delete(void *o);
 void ntt_NTT(void *o, uint64_t *dst, uint64_t *src, uint64_t size, uint64_t ncols, uint64_t *buffer, uint64_t nphase, uint64_t nblock);
 void ntt_INTT(void *o, uint64_t *dst, uint64_t *src, uint64_t size, uint64_t ncols, uint64_t *buffer, uint64_t nphase, uint64_t nblock);
+// the public inverse switch of NTT(): NTT(dst, src, size, ncols, buffer, nphase, nblock, /*inverse=*/true)
+void ntt_NTT_inverse(void *o, uint64_t *dst, uint64_t *src, uint64_t size, uint64_t ncols, uint64_t *buffer, uint64_t nphase, uint64_t nblock);
 void ntt_extendPol(void *o, uint64_t *output, uint64_t *input, uint64_t N_Extended, uint64_t N, uint64_t ncols, uint64_t *buffer, uint64_t nphase, uint64_t nblock);
 
 // returns false when the variant does not exist in this build
